@@ -677,12 +677,10 @@ func c01Sends(c *core.Ctx) {
 					}
 				}
 				// HTTP: frame writer given m itself and end == false
-				if core.PkgIs(ci.Static, "httpgrpc") && len(call.Call.Args) >= 4 {
+				if isW, end := httpFrameWriteCall(call); isW && end == 0 {
 					for _, a := range call.Call.Args {
 						if core.OriginIs(a, func(x ssa.Value) bool { return x == ssa.Value(mpar) }) {
-							if b, isC := core.ConstBool(call.Call.Args[len(call.Call.Args)-1]); isC && !b {
-								return true
-							}
+							return true
 						}
 					}
 				}
@@ -764,10 +762,11 @@ func c01Framing(c *core.Ctx) {
 	}
 	// frame writer: size = ±len(b) of the written slice, negated iff end
 	for _, fn := range p.LibFuncs("httpgrpc") {
-		if fn.Parent() != nil || len(fn.Params) < 4 || core.TypeStr(fn.Params[0].Type()) != "io.Writer" {
+		if fn.Parent() != nil || !isHTTPFrameWriter(fn) {
 			continue
 		}
 		var write, pre *ssa.Call
+		var szArg ssa.Value
 		core.Instrs(fn, func(in ssa.Instruction) {
 			if call, ok := in.(*ssa.Call); ok {
 				ci := core.InfoOf(&call.Call)
@@ -776,10 +775,16 @@ func c01Framing(c *core.Ctx) {
 				}
 				if ci.Static != nil {
 					for _, w := range wr {
-						if ci.Static == w.fn {
+						if ci.Static == w.fn && ci.Static != fn {
 							pre = call
+							szArg = call.Call.Args[1]
 						}
 					}
+				}
+				// the preface written in place
+				if ci.Is("encoding/binary.Write") && len(call.Call.Args) == 3 {
+					pre = call
+					szArg = core.Strip(call.Call.Args[2])
 				}
 			}
 		})
@@ -787,9 +792,9 @@ func c01Framing(c *core.Ctx) {
 			continue
 		}
 		key := core.FuncName(fn)
-		sz := stripNum(pre.Call.Args[1])
+		sz := stripNum(szArg)
 		okLen, okNeg := false, false
-		if phi, ok := pre.Call.Args[1].(*ssa.Convert); ok {
+		if phi, ok := szArg.(*ssa.Convert); ok {
 			if ph, ok := phi.X.(*ssa.Phi); ok {
 				for i, e := range ph.Edges {
 					if lx, isLen := lenArg(stripNum(e)); isLen && lx == write.Call.Args[0] {
